@@ -126,6 +126,7 @@ OBJ_SIGS = {
     # class -> ordered (arg, default|REQUIRED), ignored args, dont-persist-default args, stored under
     'Auto1': dict(args=[('a', None, True), ('b', 0, False), ('verbose', False, False)], ignore={'verbose', 'debug'}, dpdv=set()),
     'Auto2': dict(args=[('a', None, True), ('c', 5, False)], ignore={'verbose', 'debug'}, dpdv={'c'}),
+    'Auto3': dict(args=[('a', None, True), ('pad', 0, False)], ignore={'verbose', 'debug'}, dpdv=set()),
 }
 
 
@@ -134,6 +135,7 @@ def obj_bind(v):
     cls = v['__obj__']
     sig = {'Auto1': [('a', None, True), ('b', 0, False), ('verbose', False, False)],
            'Auto2': [('a', None, True), ('c', 5, False)],
+           'Auto3': [('a', None, True), ('pad', 0, False)],
            'Plain1': [('a', None, True), ('b', 0, False)],
            'Hand1': [('a', None, True)]}[cls]
     bound = {}
@@ -178,7 +180,7 @@ def obj_repr(v):
 def obj_state(v):
     b = obj_bind(v)
     cls = v['__obj__']
-    keys = {'Auto1': ['a', 'b'], 'Auto2': ['a', 'c'], 'Plain1': ['a', 'b'], 'Hand1': ['a']}[cls]
+    keys = {'Auto1': ['a', 'b'], 'Auto2': ['a', 'c'], 'Auto3': ['a', 'pad'], 'Plain1': ['a', 'b'], 'Hand1': ['a']}[cls]
     return {'__obj__': cls, 'state': {k: term_value(b[k]) for k in keys}}
 
 
